@@ -391,6 +391,8 @@ CORRESPONDENCE_ONLY = [
     "stated contract (miniEmplace / miniErase / miniCtor / miniClear), not tetl code; flat_set's own algorithm on top of it is "
     "proved (fiEmplace_eq, setEraseKey_eq, step_refines); flat_multiset over it is compared only (the sort itself is the proved "
     "C06 model)",
+    "erase_if(flat_set, pred) and the relational operators (==, <, ...) of static_set / flat_set: not part of the property "
+    "statement; not modelled, not generated",
     "sorted_unique constructors on input that violates their precondition: compared with 'the container is adopted as it is' "
     "on the construction line only (generator group su_violated); nothing is claimed about later operations",
     "stability of flat_multiset's sort for a comparator whose equivalence is coarser than == (model = stable spec is compared "
